@@ -407,6 +407,7 @@ class SimQueue:
                 w.block(lambda: bool(self.q), timeout)
                 if not self.q:
                     raise _rq.Empty
+        w.jumps = 0         # taking an item off a queue is progress: the loop budget counts iterations *without* consuming input
         return self.q.popleft()
 
     def get_nowait(self):
